@@ -3,7 +3,8 @@ from .. import numeric
 
 ID = "C12"
 T_GEN = ["RipassoGen.v"]
-T_FILES = ["Generated/RipassoGen", "Numeric/RipassoFacts", "Props/C12"]
+T_FILES = ["Generated/RipassoGen", "Numeric/RipassoFacts", "Numeric/DFT", "Props/C12", "Props/C12d"]
+PROPS_FILES = ["C12", "C12d"]
 ALLOWED_AXIOMS = ["ClassicalDedekindReals.sig_forall_dec", "ClassicalDedekindReals.sig_not_dec",
                   "FunctionalExtensionality.functional_extensionality_dep"]
 RULE = ("tie T: _rcFilter, applyRCFilter, applyInverseRCFilter and applyCustomTransferFunction re-translated from "
